@@ -17,7 +17,7 @@ TEXT = {
          "schedule_independent: any two schedules that read the whole stream or reach an error deliver the same requests (all fields, order, once), queue the same 100-continues and report the same first error. "
          "No bound on stream length, number of reads or cut positions. Correspondence: >700k ops per quick run over grammar-derived/boundary-aimed/corrupted streams x 6-12 schedules, each compared op by op with the compiled model, "
          "plus two oracles on the implementation alone: equal summaries across schedules, and summary = spec automaton on the whole stream.",
-         "Trusted: Lean kernel; hand model of connection.rs (buffer abstracted to win = buffer[0..read_cursor), shift_buffer_left by its closed form) checked by the differential run; "
+         "Trusted: Lean kernel; hand model of connection.rs checked by the differential run; the buffer abstraction (win = buffer[0..read_cursor), shift_buffer_left by its closed form) is not trusted: tryRead00_simulates proves that the array-level model Conn00.lean (fixed array with stale bytes, the copy and zero-fill loops, recv into buffer[read_cursor..], the whole array given to from_utf8_lossy) has the same outcomes and commutes with the abstraction in every well-formed state, and the driver steps it alongside on a sample of connections; "
          "the scripted stream stands for the kernel (E2). Timing/thread interleaving are not exhibited (the connection is single-threaded)."),
  "C03": ("Theorems: the connection invariant Inv holds initially and is preserved by try_read on ANY recv result (data of any content/length, EOF, any errno), try_write on any write result, enqueue, pop, clear — "
          "and no such call ends in a panic outcome (every slice, unwrap, drain, subtraction of the Rust code is a checked operation in the model; fuel exhaustion is a panic outcome, so termination of the loop is part of the theorem); "
